@@ -195,7 +195,7 @@ var metaQueries = []struct {
 	{"from {P}@{B}:objects | cut count", false},
 	{"from {P}@{B}:objects | yield {min,max,count,size} | sort this", true},
 	{"from {P}@{B}:objects | sum(count)", true},
-	{"from {P}@{B}:partitions | yield {min,max,n:len(objects)} | sort this", true},
+	{"from {P}@{B}:partitions | yield len(objects) | sort this", true},
 	{"from {P}@{B}:log | cut author,message,meta", true},
 	{"from {P}@{B}:rawlog | yield typeof(this) | sort this", true},
 	{"from {P}@{B}:vectors | count()", true},
@@ -770,6 +770,45 @@ func collect(q zbuf.Scanner, err error) qres {
 	}
 }
 
+// sameOrdered compares two result sequences of a program that defines an output order.  Values that the repo's
+// own sort comparator considers equal (e.g. 1 and 1., or a named and an unnamed record with the same fields) may
+// legitimately appear in either order, or be chosen differently by head/tail, because tie order depends on scan
+// order which depends on object ids; such positions are accepted.  Returns (diff, tieReordered).
+func sameOrdered(d, s []zed.Value) (string, bool) {
+	diff := oracle.Same(d, s)
+	if diff == "" {
+		return "", false
+	}
+	if len(d) != len(s) {
+		return diff, false
+	}
+	zctx := zed.NewContext()
+	dd, ss := translate(zctx, d), translate(zctx, s)
+	cmp := expr.NewValueCompareFn(order.Asc, true)
+	for i := range dd {
+		if oracle.Key(dd[i]) == oracle.Key(ss[i]) {
+			continue
+		}
+		if cmp(dd[i], ss[i]) != 0 {
+			return diff, false
+		}
+	}
+	return "", true
+}
+
+// hasTies reports whether two adjacent, non-identical values compare equal under the sort comparator.
+func hasTies(vals []zed.Value) bool {
+	zctx := zed.NewContext()
+	vv := translate(zctx, vals)
+	cmp := expr.NewValueCompareFn(order.Asc, true)
+	for i := 1; i < len(vv); i++ {
+		if oracle.Key(vv[i-1]) != oracle.Key(vv[i]) && cmp(vv[i-1], vv[i]) == 0 {
+			return true
+		}
+	}
+	return false
+}
+
 type bufCloser struct{ bytes.Buffer }
 
 func (*bufCloser) Close() error { return nil }
@@ -1028,10 +1067,21 @@ func (r *runner) compareQuery(step int, what string, head *lakeparse.Commitish, 
 		}
 	} else {
 		if diff := oracle.Same(d.vals, s.vals); diff != "" {
-			if ordered || oracle.SameMultiset(d.vals, s.vals) != "" {
-				return fail("C19/query/output-differs", "step %d (%s): %q: direct and remote results differ: %s", step, what, text, diff)
+			if ordered {
+				od, ties := sameOrdered(d.vals, s.vals)
+				if od != "" {
+					return fail("C19/query/output-differs", "step %d (%s): %q: direct and remote results differ: %s", step, what, text, od)
+				}
+				if ties {
+					r.o.Label("query:tie-reordered")
+				}
+			} else {
+				if oracle.SameMultiset(d.vals, s.vals) != "" {
+					return fail("C19/query/output-differs", "step %d (%s): %q: direct and remote results differ: %s", step, what, text, diff)
+				}
+				r.o.Label("query:unordered-reordered")
 			}
-			r.o.Label("query:unordered-reordered")
+			r.debugf("step %d REORDERED %q: %s", step, text, diff)
 		}
 		r.o.Label("query:ok")
 		if len(d.vals) == 0 {
@@ -1107,7 +1157,14 @@ func (r *runner) compareRaw(step int, what string, head *lakeparse.Commitish, te
 			return fail("C19/query/raw/undecodable", "step %d (%s): %q (%s): response body cannot be decoded: %v; body %q", step, what, text, tag, derr, trunc(res.body))
 		}
 		if diff := oracle.Same(d.vals, vals); diff != "" {
-			if ordered || oracle.SameMultiset(d.vals, vals) != "" {
+			if ordered {
+				if od, _ := sameOrdered(d.vals, vals); od != "" {
+					return fail("C19/query/raw/output-differs", "step %d (%s): %q (%s): decoded response differs from the direct result: %s", step, what, text, tag, od)
+				}
+				r.o.Label("query:tie-reordered")
+				return nil
+			}
+			if oracle.SameMultiset(d.vals, vals) != "" {
 				return fail("C19/query/raw/output-differs", "step %d (%s): %q (%s): decoded response differs from the direct result: %s", step, what, text, tag, diff)
 			}
 			r.o.Label("query:unordered-reordered")
@@ -1122,9 +1179,17 @@ func (r *runner) compareRaw(step int, what string, head *lakeparse.Commitish, te
 		got, _, _ = stripZJSONControl(res.body)
 	}
 	if !bytes.Equal(got, want) {
-		if !ordered && sortedLines(raw.Format, got) == sortedLines(raw.Format, want) {
-			r.o.Label("query:unordered-reordered")
-			return nil
+		if sortedLines(raw.Format, got) == sortedLines(raw.Format, want) {
+			if !ordered {
+				r.o.Label("query:unordered-reordered")
+				return nil
+			}
+			// ordered program, lossy format: a different line order is legitimate only among values the sort
+			// comparator considers equal (see sameOrdered)
+			if hasTies(d.vals) || strings.Contains(text, "head") || strings.Contains(text, "tail") {
+				r.o.Label("query:tie-reordered")
+				return nil
+			}
 		}
 		return fail("C19/query/raw/bytes-differ", "step %d (%s): %q (%s): response bytes differ from the same formatter over the direct result:\n got  %q\n want %q", step, what, text, tag, trunc(got), trunc(want))
 	}
@@ -1808,6 +1873,11 @@ func runCase(c Case) *vt.Outcome {
 			return o
 		}
 		steps++
+		if (op.Kind == "query" || op.Kind == "lateerr") && i != len(c.Ops)-1 {
+			// read-only steps: the (expensive) cold comparison of both directories is done after the next
+			// mutation and at the end of the history
+			continue
+		}
 		var after [2]*lakeState
 		var ierr [2]error
 		for si := 0; si < 2; si++ {
@@ -1905,3 +1975,84 @@ func init() { prop.Register() }
 
 func TestServiceEquivalence(t *testing.T) { prop.Check(t) }
 func TestReplay(t *testing.T)             { vt.TestReplay(t) }
+
+// ---------------------------------------------------------------- literal regression cases
+
+func literalCases() map[string]struct {
+	sig, expect string
+	c           Case
+} {
+	uni := gen.SeqFromZSON(`{k:3,s:"a",v:1} {k:1,s:"b",v:2} {k:2,s:"x,y",v:0}`)
+	mixed := gen.SeqFromZSON(`{k:105,s:"a",v:1} {k:101,s:"b",v:2.5} {k:null(int64),s:"c",v:1} {k:null(int64),s:"é",v:0} {s:"a",v:1} "str" {k:110,n:{a:1,b:[1,2]},ip:10.0.0.1}`)
+	third := gen.SeqFromZSON(`{k:201,s:"a",v:1} {k:202,s:"b",v:2} {k:203,s:"c",v:3}`)
+	batches := []gen.Seq{uni, mixed, third}
+	pool := Op{Kind: "createpool", Key: "k", Stride: 1, Thresh: 40}
+	all := []Raw{{"zng", true}, {"zng", false}, {"zson", true}, {"zson", false}, {"zjson", true}, {"zjson", false}, {"json", true}, {"json", false}, {"csv", true}, {"csv", false}}
+	m := map[string]struct {
+		sig, expect string
+		c           Case
+	}{}
+	add := func(name, sig, expect string, par int, ops ...Op) {
+		m[name] = struct {
+			sig, expect string
+			c           Case
+		}{sig, expect, Case{Parallel: par, BatchValues: 1, Batches: batches, Ops: ops}}
+	}
+	add("known-C19-remote-removebranch-stub", sigRemoveBranch, "known", 1,
+		pool, Op{Kind: "load", Via: "api"}, Op{Kind: "branch"}, Op{Kind: "dropbranch", Branch: 1},
+		Op{Kind: "query", Query: "from :branches | yield {p:pool.name,b:branch.name} | sort this", Ordered: true, Raws: all[:4]})
+	add("known-C19-load-warnings-commit-prefix-json", sigBadTail, "known", 1,
+		pool, Op{Kind: "load", Via: "json", Bad: "tail", Cut: 8, Garbage: true},
+		Op{Kind: "query", Query: "from {P}@{B} | sort this", Ordered: true, Raws: all[:2]})
+	add("known-C19-load-warnings-commit-prefix-zng", sigBadTail, "known", 1,
+		pool, Op{Kind: "load", Via: "zng", Batch: 2, Bad: "tail", Cut: 9, Garbage: true})
+	add("regress-compact-null-key-tie-order", "", "", 1,
+		Op{Kind: "createpool", Key: "k"}, Op{Kind: "load", Via: "api", Batch: 1}, Op{Kind: "load", Via: "auto", Batch: 1}, Op{Kind: "load", Via: "api", Batch: 1},
+		Op{Kind: "compact", Pick: []int{0, 1, 2}}, Op{Kind: "query", Query: "from {P}@{B}", Raws: all[:6]})
+	add("regress-csv-float-twins-partitions", "", "", 1,
+		pool, Op{Kind: "load", Via: "api"}, Op{Kind: "load", Via: "csv"}, Op{Kind: "load", Via: "json"},
+		Op{Kind: "query", Query: "from {P}@{B}:partitions | yield len(objects) | sort this", Ordered: true},
+		Op{Kind: "query", Query: "from {P}@{B} | sort this", Ordered: true, Raws: all},
+		Op{Kind: "query", Query: "from {P}@{B} | sort this | head 3", Ordered: true, Raws: all})
+	add("regress-all-formats-multibatch", "", "", 2,
+		pool, Op{Kind: "load", Via: "zson"}, Op{Kind: "load", Via: "vng", Batch: 2}, Op{Kind: "load", Via: "zjson", Batch: 1},
+		Op{Kind: "query", Query: "from {P}@{B}", Raws: all},
+		Op{Kind: "query", Query: "from {P}@{B} | sort this", Ordered: true, Raws: all},
+		Op{Kind: "query", Query: "from {P}@{B}:objects | yield {min,max,count,size} | sort this", Ordered: true, Raws: all},
+		Op{Kind: "query", Query: "from {P}@{B} | bogus(", Ordered: true, Raws: all[:4]})
+	add("regress-late-error-corrupted-object", "", "", 1,
+		pool, Op{Kind: "load", Via: "api"}, Op{Kind: "load", Via: "api", Batch: 2},
+		Op{Kind: "lateerr", Pick: []int{7}, Query: "from {P}@{B}", Raws: all},
+		Op{Kind: "query", Query: "from {P}@{B} | count()", Ordered: true, Raws: all[:2]})
+	add("regress-late-error-csv-formatter", "", "", 1,
+		pool, Op{Kind: "load", Via: "api", Batch: 1},
+		Op{Kind: "query", Query: "from {P}@{B} | sort this", Ordered: true, Raws: all[8:]})
+	add("regress-history-merge-revert-vacuum", "", "", 0,
+		pool, Op{Kind: "load", Via: "api"}, Op{Kind: "branch"}, Op{Kind: "load", Via: "zng", Branch: 1, Batch: 2}, Op{Kind: "merge", Branch: 1, Other: 0},
+		Op{Kind: "delete", Pick: []int{0}}, Op{Kind: "revert", At: 0}, Op{Kind: "deletewhere", Pred: "k >= 2"}, Op{Kind: "compact", Pick: []int{0, 1}, Vectors: true},
+		Op{Kind: "addvec", Pick: []int{0}}, Op{Kind: "vacuum"}, Op{Kind: "renamepool"}, Op{Kind: "query", Query: "from {P}@{B}:log | cut author,message,meta", Ordered: true, Raws: all[:6]},
+		Op{Kind: "droppool"}, Op{Kind: "query", Query: "from :pools | cut name", Raws: all[:2]})
+	return m
+}
+
+// TestWriteReplays regenerates the literal replay files: VERIF_C19_WRITE_REPLAYS=/verif/replays/C19 go test -run TestWriteReplays ./c19
+func TestWriteReplays(t *testing.T) {
+	dir := os.Getenv("VERIF_C19_WRITE_REPLAYS")
+	if dir == "" {
+		t.Skip("set VERIF_C19_WRITE_REPLAYS=<dir>")
+	}
+	for name, lc := range literalCases() {
+		raw, err := json.Marshal(lc.c)
+		if err != nil {
+			t.Fatal(err)
+		}
+		rec := map[string]any{"test": prop.Name, "sig": lc.sig, "case": json.RawMessage(raw)}
+		if lc.expect != "" {
+			rec["expect"] = lc.expect
+		}
+		b, _ := json.MarshalIndent(rec, "", " ")
+		if err := os.WriteFile(dir+"/"+name+".json", append(b, '\n'), 0o644); err != nil {
+			t.Fatal(err)
+		}
+	}
+}
